@@ -2,12 +2,14 @@ package props
 
 import (
 	"fmt"
+	"strings"
 	"sync"
 	"testing"
 	"time"
 
 	"github.com/orda-io/orda/client/pkg/model"
 	"github.com/orda-io/orda/client/pkg/orda"
+	"go.mongodb.org/mongo-driver/bson"
 	"pgregory.net/rapid"
 	"verif/refmodel"
 	"verif/sim"
@@ -473,4 +475,216 @@ func TestC13Retry(t *testing.T) {
 		}
 	}
 	col.SetExhaustive(true)
+}
+
+// c13RealRun plays one cell of the entry contract through REAL clients (orda.NewClient, manual sync,
+// gRPC): the actor opens the key in the cell's mode and, in the same Sync(), creates a second, fresh
+// key - a refused pack must not take the other pack of the message down with it.
+func c13RealRun(cell c13Cell) (nontrivial bool, err error) {
+	w, e := newL1World(cell.IDSeed, []sim.Kind{cell.Kind, sim.Counter})
+	if e != nil {
+		return false, fmt.Errorf("HARNESS-ERROR: %v", e)
+	}
+	defer w.close()
+	k, k2 := w.keys[0], w.keys[1]
+	var closers []orda.Client
+	defer func() {
+		for _, c := range closers {
+			c := c
+			watchdog(3*time.Second, func() { _ = c.Close() })
+		}
+	}()
+	newClient := func(alias string) (orda.Client, error) {
+		cl, e := w.env.NewRealClient(w.col, alias, model.SyncType_MANUALLY)
+		if e != nil {
+			return nil, e
+		}
+		if e := cl.Connect(); e != nil {
+			return nil, e
+		}
+		closers = append(closers, cl)
+		return cl, nil
+	}
+	if cell.Existing != "none" {
+		ek := cell.Kind
+		if cell.Existing == "other" {
+			ek = otherKind(cell.Kind)
+		}
+		owner, e := newClient("owner")
+		if e != nil {
+			return false, fmt.Errorf("HARNESS-ERROR: %v", e)
+		}
+		od := &c05rDT{key: k, mode: "create"}
+		od.dt = openReal(owner, ek, k.Name, "create", od.handlers())
+		for i := 0; i < cell.PriorOps; i++ {
+			sim.Exec(ek, od.dt, c06CheapCall(ek, i))
+		}
+		if err, hung := syncWithDeadline(owner, l1Deadline); err != nil || hung {
+			return false, fmt.Errorf("HARNESS-ERROR: cannot prepare the existing datatype: err=%v hung=%v", err, hung)
+		}
+		k.duid = od.dt.GetDUID()
+	}
+	actor, e := newClient("actor")
+	if e != nil {
+		return false, fmt.Errorf("HARNESS-ERROR: %v", e)
+	}
+	d := &c05rDT{key: k, mode: cell.Mode}
+	d.dt = openReal(actor, cell.Kind, k.Name, cell.Mode, d.handlers())
+	for i := 0; i < cell.OwnOps; i++ {
+		sim.Exec(cell.Kind, d.dt, c06CheapCall(cell.Kind, 200+i))
+	}
+	d2 := &c05rDT{key: k2, mode: "create"}
+	d2.dt = openReal(actor, sim.Counter, k2.Name, "create", d2.handlers())
+	sim.Exec(sim.Counter, d2.dt, c06CheapCall(sim.Counter, 1))
+	w.env.WaitBackground(3 * time.Second)
+	before := c13Footprint(w, k, d.dt.GetDUID())
+	_, hung := syncWithDeadline(actor, l1Deadline)
+	if hung {
+		return true, fmt.Errorf("Sync() of the real client did not return within %v (%s on existing=%s)", l1Deadline, cell.Mode, cell.Existing)
+	}
+	waitHandlers()
+	time.Sleep(2 * time.Millisecond)
+	waitHandlers()
+	w.env.WaitBackground(3 * time.Second)
+	want := c13Expected(cell.Mode, cell.Existing)
+	d.mu.Lock()
+	subs, errs := d.subs, append([]string{}, d.errs...)
+	d.mu.Unlock()
+	state := d.dt.GetState()
+	// the other pack of the same message
+	d2.mu.Lock()
+	subs2, errs2 := d2.subs, append([]string{}, d2.errs...)
+	d2.mu.Unlock()
+	if d2.dt.GetState() != model.StateOfDatatype_SUBSCRIBED || subs2 != 1 || len(errs2) != 0 {
+		return true, fmt.Errorf("the fresh key created in the same Sync() as '%s on existing=%s' is in state %v (SUBSCRIBED events %d, errors %v)", cell.Mode, cell.Existing, d2.dt.GetState(), subs2, errs2)
+	}
+	if want == "refused" {
+		if len(errs) == 0 {
+			return true, fmt.Errorf("%s on a key whose existing datatype is %q must be refused, but the client's error handler was not called (state %v)", cell.Mode, cell.Existing, state)
+		}
+		if state == model.StateOfDatatype_SUBSCRIBED || subs != 0 {
+			return true, fmt.Errorf("%s on existing=%s was refused (%v) but the datatype is %v (%d SUBSCRIBED events)", cell.Mode, cell.Existing, errs, state, subs)
+		}
+		// nothing stored for the refused key (the fresh second key of the same message does store things)
+		if after := c13Footprint(w, k, d.dt.GetDUID()); after != before {
+			return true, fmt.Errorf("the refused %s on existing=%s changed what is stored for the key:\n%s", cell.Mode, cell.Existing, dumpDiff(before, after))
+		}
+		// the client stays usable
+		if _, hung := syncWithDeadline(actor, l1Deadline); hung {
+			return true, fmt.Errorf("the Sync() after a refused %s did not return", cell.Mode)
+		}
+		return true, nil
+	}
+	if state != model.StateOfDatatype_SUBSCRIBED || subs != 1 || len(errs) != 0 {
+		return true, fmt.Errorf("%s on existing=%s must succeed (%s), but the datatype is %v with %d SUBSCRIBED events and errors %v", cell.Mode, cell.Existing, want, state, subs, errs)
+	}
+	if want == "subscribed" {
+		if d.dt.GetDUID() != k.duid {
+			return true, fmt.Errorf("the subscriber holds datatype id %s, the existing datatype is %s", d.dt.GetDUID(), k.duid)
+		}
+		s := d.dt.CreatePushPullPack().CheckPoint.Sseq
+		log, _ := w.storedLog(k.duid)
+		var ops []*model.Operation
+		for _, so := range log {
+			if uint64(so.sseq) <= s {
+				ops = append(ops, so.op)
+			}
+		}
+		st, e := refmodel.Compute(string(cell.Kind), ops)
+		if e != nil {
+			return true, e
+		}
+		if got, want := sim.Canon(d.dt.(orda.Datatype).ToJSON()), sim.Canon(st.JSON()); got != want {
+			return true, fmt.Errorf("first state after subscribing at log position %d is %s, the log prefix gives %s", s, got, want)
+		}
+	}
+	// one more sync must not report the transition again
+	if err, hung := syncWithDeadline(actor, l1Deadline); err != nil || hung {
+		return true, fmt.Errorf("the sync after entering fails: err=%v hung=%v", err, hung)
+	}
+	waitHandlers()
+	d.mu.Lock()
+	subs = d.subs
+	d.mu.Unlock()
+	if subs != 1 {
+		return true, fmt.Errorf("after one more Sync() the state-change handler has reported SUBSCRIBED %d times", subs)
+	}
+	n := 0
+	for _, dd := range w.datatypeDocs() {
+		if bstr(bget(dd, "key")) == k.Name {
+			n++
+		}
+	}
+	if n != 1 {
+		return true, fmt.Errorf("%d datatype documents exist for key %s (want 1)", n, k.Name)
+	}
+	return true, nil
+}
+
+// TestC13RealClient: the entry contract through the public client API.
+func TestC13RealClient(t *testing.T) {
+	col := stats.New("C13", t.Name(),
+		"EXHAUSTIVE sub-matrix through REAL clients (orda.NewClient, manual sync, gRPC): entry mode x existing datatype {none, same type with 3 stored operations, other type} x {0, 2} operations made before the first Sync() x 4 kinds; the same Sync() also creates a second, fresh key; "+
+			"oracle: Sync() returns; a refusal calls the datatype's error handler, leaves it un-subscribed, stores nothing for the key, and neither disturbs the other pack of the message (the fresh key becomes SUBSCRIBED) nor the client's next Sync(); a success makes the datatype SUBSCRIBED with exactly one state-change event (also after one more Sync()) and no error event; a subscriber holds the existing datatype's id and its first state equals refmodel(log[1..S]) for the S of its checkpoint; one datatype document per key; "+
+			"non-trivial = every cell; distinct = the cell")
+	defer col.Flush()
+	shard, nshards := envInt("VERIF_SHARD", 0), envInt("VERIF_NSHARDS", 1)
+	i := 0
+	for _, kind := range sim.AllKinds {
+		for _, m := range []string{"create", "subscribe", "subscribe-or-create"} {
+			for _, ex := range []string{"none", "same", "other"} {
+				for _, own := range []int{0, 2} {
+					i++
+					if i%nshards != shard {
+						continue
+					}
+					cell := c13Cell{Mode: m, Existing: ex, Racer: "none", Kind: kind, PriorOps: 3, OwnOps: own, IDSeed: uint64(11000 + i)}
+					_, err := c13RealRun(cell)
+					if err != nil {
+						j := &Journal{Property: "C13", Test: t.Name(), Header: cell}
+						col.Flush()
+						if strings.HasPrefix(err.Error(), "HARNESS-ERROR") {
+							fmt.Println(err.Error())
+							t.Fatalf("%v", err)
+						}
+						enumFail(t, "C13", j, "cell %+v: %v", cell, err)
+					}
+					col.Case(true, fmt.Sprintf("real %+v", cell), []string{"mode=" + m, "existing=" + ex, fmt.Sprintf("own-ops=%d", own)}, func() interface{} { return cell })
+				}
+			}
+		}
+	}
+	col.SetExhaustive(true)
+}
+
+// c13Footprint is the canonical text of everything stored for one key: its datatype documents, the
+// operations and snapshots of the existing datatype and of the id the actor generated locally, and
+// the user-visible document.
+func c13Footprint(w *l1World, k *l1Key, localDUID string) string {
+	dump := w.env.Mongo.Dump()
+	var sb strings.Builder
+	var dts, ops, snaps, user []bson.D
+	for _, d := range dump[w.env.DBName+".-_-Datatypes"] {
+		if bstr(bget(d, "key")) == k.Name {
+			dts = append(dts, d)
+		}
+	}
+	mine := func(duid string) bool { return duid != "" && (duid == k.duid || duid == localDUID) }
+	for _, d := range dump[w.env.DBName+".-_-Operations"] {
+		if mine(bstr(bget(d, "duid"))) {
+			ops = append(ops, d)
+		}
+	}
+	for _, d := range dump[w.env.DBName+".-_-Snapshots"] {
+		if mine(bstr(bget(d, "duid"))) {
+			snaps = append(snaps, d)
+		}
+	}
+	for _, d := range dump[w.env.DBName+"."+w.col] {
+		if bstr(bget(d, "_id")) == k.Name {
+			user = append(user, d)
+		}
+	}
+	sb.WriteString("datatypes:\n" + canonDocs(dts) + "\noperations:\n" + canonDocs(ops) + "\nsnapshots:\n" + canonDocs(snaps) + "\nuser:\n" + canonDocs(user))
+	return sb.String()
 }
